@@ -39,11 +39,11 @@ theorem binaryReturnClass_is_operand (c1 c2 c : PyCls) (h : binaryReturnClass c1
   repeat' split at h
   all_goals first | (cases h; simp) | cases h
 
-/-- wrap-up of every ufunc except `modf`/`divmod` whose unit rule gives a unit: the result is a
-    `unyt_quantity` exactly when the raw result has shape `()`, for every class handed in and
-    every shape; the shape is NumPy's -/
+/-- wrap-up of every ufunc output whose unit rule gives a unit (`modf`/`divmod` included): the
+    result is a `unyt_quantity` exactly when the raw result has shape `()`, for every class handed
+    in and every shape; the shape is NumPy's -/
 theorem wrapUp_strict (rc : PyCls) (sh : Shape) (r : Res)
-    (h : wrapUp false false rc sh = .ok r) : r.Strict ∧ r.shape = sh ∧ r.cls.isUnyt = true := by
+    (h : wrapUp false rc sh = .ok r) : r.Strict ∧ r.shape = sh ∧ r.cls.isUnyt = true := by
   unfold wrapUp at h
   simp only [Bool.false_eq_true, if_false] at h
   by_cases hs : sh = []
@@ -68,33 +68,22 @@ theorem wrapUp_strict (rc : PyCls) (sh : Shape) (r : Res)
           exact ⟨⟨fun hq' => absurd hq' hq, fun hs' => absurd hs' hs⟩, rfl, hu⟩
         · simp [hu] at h
 
-/-- no wrap-up branch — `modf`/`divmod` and unit-less results included — ever returns a
-    quantity with more than one element -/
-theorem wrapUp_no_multielement_quantity (un mo : Bool) (rc : PyCls) (sh : Shape) (r : Res)
-    (h : wrapUp un mo rc sh = .ok r) (hq : r.cls.isQuantity = true) : size r.shape ≤ 1 := by
+/-- no wrap-up branch — unit-less results included — ever returns a quantity with more than one
+    element -/
+theorem wrapUp_no_multielement_quantity (un : Bool) (rc : PyCls) (sh : Shape) (r : Res)
+    (h : wrapUp un rc sh = .ok r) (hq : r.cls.isQuantity = true) : size r.shape ≤ 1 := by
   cases un with
   | true => simp [wrapUp] at h; subst h; simp [PyCls.isQuantity, PyCls.isSub, PyCls.base] at hq
   | false =>
-    cases mo with
-    | false =>
-      have := wrapUp_strict rc sh r h
-      have hs := this.1.1 hq
-      rw [hs]; simp [size]
-    | true =>
-      simp only [wrapUp, Bool.false_eq_true, if_false, if_true, construct] at h
-      split at h
-      · split at h
-        · cases h
-        · cases h; simp only; omega
-      · split at h
-        · cases h; rename_i hnq _; exact absurd hq hnq
-        · cases h
+    have := wrapUp_strict rc sh r h
+    have hs := this.1.1 hq
+    rw [hs]; simp [size]
 
 /-- the post-multiplication `mul * out_arr` (a second trip through `__array_ufunc__` with a
     Python float) returns the same class and shape -/
 theorem wrapUp_postmul_idem (rc : PyCls) (sh : Shape) (r : Res)
-    (h : wrapUp false false rc sh = .ok r) :
-    ∃ rc', binaryReturnClass .pyfloat r.cls = .ok rc' ∧ wrapUp false false rc' r.shape = .ok r := by
+    (h : wrapUp false rc sh = .ok r) :
+    ∃ rc', binaryReturnClass .pyfloat r.cls = .ok rc' ∧ wrapUp false rc' r.shape = .ok r := by
   obtain ⟨hst, hsh, hu⟩ := wrapUp_strict rc sh r h
   refine ⟨r.cls, ?_, ?_⟩
   · unfold binaryReturnClass
@@ -128,13 +117,13 @@ theorem wrapUp_postmul_idem (rc : PyCls) (sh : Shape) (r : Res)
         simp [h1, construct, PyCls.isQuantity, PyCls.isUnyt, PyCls.isSub, PyCls.base]
       · simp [h1, hnq, hu]
 
-/-- **wrap_class_iff_shape (ufuncs)** — for every invocation (`__call__`, `reduce`, `accumulate`,
-    `outer`, `matmul`, `vecdot`), every operand class tuple and every operand shapes: when the
-    unit rule yields a unit and the ufunc is not `modf`/`divmod`, the value returned by
+/-- **wrap_class_iff_shape (ufuncs)** — for every ufunc (`modf`/`divmod` included), every
+    invocation (`__call__`, `reduce`, `accumulate`, `outer`, `matmul`, `vecdot`), every operand
+    class tuple and every operand shapes: when the unit rule yields a unit, each value returned by
     `__array_ufunc__` is a `unyt_quantity` iff its shape is `()` — with or without the
     post-multiplication by a simplification coefficient -/
 theorem ufunc_wrap_class_iff_shape (c : UfuncCall) (r : Res)
-    (hu : c.unitNone = false) (hm : c.multiOut = false) (h : ufuncResult c = .ok r) :
+    (hu : c.unitNone = false) (h : ufuncResult c = .ok r) :
     r.Strict ∧ r.cls.isUnyt = true := by
   unfold ufuncResult at h
   split at h
@@ -143,7 +132,7 @@ theorem ufunc_wrap_class_iff_shape (c : UfuncCall) (r : Res)
     split at h
     · cases h
     · rename_i sh _
-      rw [hu, hm] at h
+      rw [hu] at h
       split at h
       · cases h
       · rename_i r0 hr0
@@ -158,8 +147,9 @@ theorem ufunc_wrap_class_iff_shape (c : UfuncCall) (r : Res)
           cases h
           exact ⟨h0.1, h0.2.2⟩
 
-/-- **no_multielement_quantity (ufuncs)** — whatever the flags (`modf`/`divmod`, unit-less
-    results, post-multiplication), a ufunc never returns a quantity with more than one element -/
+/-- **no_multielement_quantity (ufuncs)** — whatever the flags (unit-less results,
+    post-multiplication, `modf`/`divmod`), a ufunc never returns a quantity with more than one
+    element -/
 theorem ufunc_no_multielement_quantity (c : UfuncCall) (r : Res) (h : ufuncResult c = .ok r)
     (hq : r.cls.isQuantity = true) : size r.shape ≤ 1 := by
   unfold ufuncResult at h
@@ -173,117 +163,36 @@ theorem ufunc_no_multielement_quantity (c : UfuncCall) (r : Res) (h : ufuncResul
       · cases h
       · rename_i r0 hr0
         split at h
-        · cases h; exact wrapUp_no_multielement_quantity _ _ rc sh r hr0 hq
+        · cases h; exact wrapUp_no_multielement_quantity _ rc sh r hr0 hq
         · split at h
           · cases h
-          · exact wrapUp_no_multielement_quantity _ _ _ _ r h hq
+          · exact wrapUp_no_multielement_quantity _ _ _ r h hq
 
-/-- `modf`/`divmod` skip the shape test: a 0-d `unyt_array` operand comes back as 0-d
-    `unyt_array`s, and a size-1 non-scalar result of `divmod(quantity, ndarray)` is a quantity —
-    `Strict` fails for them (the harness replays both on the real code) -/
-theorem multiOut_counterexample :
-    (∃ r, ufuncResult ⟨.call, false, true, true, [(.uarray, [])]⟩ = .ok r ∧ ¬ r.Good) ∧
-    (∃ r, ufuncResult ⟨.call, false, true, true, [(.uquantity, []), (.ndarray, [1])]⟩ = .ok r ∧ ¬ r.Strict) ∧
-    ufuncResult ⟨.call, false, true, true, [(.uquantity, []), (.ndarray, [2])]⟩ = .error .RuntimeError := by
-  refine ⟨⟨⟨.uarray, []⟩, rfl, by decide⟩, ⟨⟨.uquantity, [1]⟩, rfl, by decide⟩, rfl⟩
-
-/-- the full statement for the ufunc layer: every returned unyt object meets the property, for
-    operands that meet it themselves -/
-def OperandsGood (ops : List (PyCls × Shape)) : Prop :=
-  ∀ o ∈ ops, o.1.isUnyt = true → Res.Good ⟨o.1, o.2⟩
-
-/-- for a plain call with at most two operands that satisfy the property, a raw result of
-    shape `()` means the class handed to the wrap-up is a quantity class -/
-theorem call_scalar_class (ops : List (PyCls × Shape)) (rc : PyCls)
-    (hops : OperandsGood ops) (hlen : ops.length ≤ 2)
-    (hrc : ufuncRetClass (ops.map (·.1)) = .ok rc)
-    (hsh : ufuncOutShape .call (ops.map (·.2)) = .ok []) (hu : rc.isUnyt = true) :
-    rc.isQuantity = true := by
-  match ops, hlen with
-  | [], _ => simp [ufuncRetClass] at hrc
-  | [(c1, s1)], _ =>
-    simp only [List.map, ufuncRetClass, ufuncOutShape] at hrc hsh
-    cases hrc; cases hsh
-    exact (hops (rc, []) (by simp) hu).1 rfl
-  | [(c1, s1), (c2, s2)], _ =>
-    simp only [List.map, ufuncRetClass, ufuncOutShape] at hrc hsh
-    cases hb : broadcast s1 s2 with
-    | none => simp [hb] at hsh
-    | some r' =>
-      simp only [hb] at hsh
-      cases hsh
-      obtain ⟨e1, e2⟩ := (broadcast_eq_nil_iff s1 s2).1 hb
-      subst e1; subst e2
-      rcases binaryReturnClass_is_operand c1 c2 rc hrc with e | e
-      · subst e; exact (hops (rc, []) (by simp) hu).1 rfl
-      · subst e; exact (hops (rc, []) (by simp) hu).1 rfl
-  | _ :: _ :: _ :: _, hl => simp at hl
-
-/-- **C16 for ufuncs, full strength** — for every ufunc invocation (including `modf`/`divmod`,
-    which NumPy only offers as plain calls on one or two operands) on operands that satisfy the
-    property, every unyt object returned satisfies the property -/
+/-- **C16 for ufuncs, full strength** — for every ufunc invocation, on operands of any class and
+    shape, every unyt object returned satisfies the property -/
 theorem ufunc_result_good (c : UfuncCall) (r : Res)
-    (hops : OperandsGood c.ops) (hcall : c.multiOut = true → c.method = .call ∧ c.ops.length ≤ 2)
     (h : ufuncResult c = .ok r) (hun : r.cls.isUnyt = true) : r.Good := by
-  refine ⟨fun hs => ?_, fun hsz => ?_⟩
-  · cases hm : c.multiOut with
-    | false =>
-      cases hu : c.unitNone with
-      | false => exact (ufunc_wrap_class_iff_shape c r hu hm h).1.2 hs
-      | true =>
-        unfold ufuncResult at h
-        cases hrc : ufuncRetClass (c.ops.map (·.1)) with
-        | error e => simp [hrc] at h
-        | ok rc =>
-          cases hsh : ufuncOutShape c.method (c.ops.map (·.2)) with
-          | error e => simp [hrc, hsh] at h
-          | ok sh =>
-            simp [hrc, hsh, hu, wrapUp] at h
-            subst h; simp [ndarray_not_unyt] at hun
-    | true =>
-      obtain ⟨hmeth, hlen⟩ := hcall hm
-      unfold ufuncResult at h
-      cases hrc : ufuncRetClass (c.ops.map (·.1)) with
-      | error e => simp [hrc] at h
-      | ok rc =>
-        cases hsh : ufuncOutShape c.method (c.ops.map (·.2)) with
-        | error e => simp [hrc, hsh] at h
-        | ok sh =>
-          simp only [hrc, hsh, hm] at h
-          cases hu : c.unitNone with
-          | true =>
-            simp [hu, wrapUp] at h
-            subst h; simp [ndarray_not_unyt] at hun
-          | false =>
-            simp only [hu, wrapUp, Bool.false_eq_true, if_false, if_true] at h
-            cases hc : construct rc sh with
-            | error e => simp [hc] at h
-            | ok r0 =>
-              obtain ⟨hr0, hu0, _⟩ := construct_ok rc sh r0 hc
-              simp only [hc, Bool.or_false] at h
-              by_cases h1 : c.mulIsOne = true
-              · simp only [h1, if_true] at h
-                cases h
-                subst hr0
-                simp only at hs hun
-                subst hs
-                rw [hmeth] at hsh
-                exact call_scalar_class c.ops rc hops hlen hrc hsh hun
-              · simp only [h1, Bool.false_eq_true, if_false] at h
-                cases hb : binaryReturnClass .pyfloat r0.cls with
-                | error e => simp [hb] at h
-                | ok rc' =>
-                  simp only [hb] at h
-                  exact (wrapUp_strict rc' r0.shape r h).1.2 hs
-  · cases hq : r.cls.isQuantity with
-    | false => rfl
-    | true => have := ufunc_no_multielement_quantity c r h hq; omega
+  cases hu : c.unitNone with
+  | false => exact strict_good r (ufunc_wrap_class_iff_shape c r hu h).1
+  | true =>
+    -- unit-less results are plain ndarrays
+    unfold ufuncResult at h
+    cases hrc : ufuncRetClass (c.ops.map (·.1)) with
+    | error e => simp [hrc] at h
+    | ok rc =>
+      cases hsh : ufuncOutShape c.method (c.ops.map (·.2)) with
+      | error e => simp [hrc, hsh] at h
+      | ok sh =>
+        simp [hrc, hsh, hu, wrapUp] at h
+        subst h; simp [ndarray_not_unyt] at hun
 
 /-- non-vacuity: `np.add(unyt_quantity, ndarray of shape (2,3))` is a `unyt_array` of shape (2,3),
-    `np.add.reduce` of it a `unyt_quantity`, `divmod(q, q)` two quantities -/
+    `np.add.reduce` of it a `unyt_quantity`, `divmod(q, q)` two quantities, `divmod(q, ndarray)`
+    two arrays -/
 example : ufuncResult ⟨.call, false, false, true, [(.uquantity, []), (.ndarray, [2, 3])]⟩ = .ok ⟨.uarray, [2, 3]⟩ := rfl
 example : ufuncResult ⟨.reduce none false, false, false, true, [(.uarray, [2, 3])]⟩ = .ok ⟨.uquantity, []⟩ := rfl
 example : ufuncResult ⟨.call, false, true, true, [(.uquantity, []), (.uquantity, [])]⟩ = .ok ⟨.uquantity, []⟩ := rfl
+example : ufuncResult ⟨.call, false, true, true, [(.uquantity, []), (.ndarray, [2])]⟩ = .ok ⟨.uarray, [2]⟩ := rfl
 example : ufuncResult ⟨.call, false, false, false, [(.subA, [3]), (.uquantity, [])]⟩ = .ok ⟨.subA, [3]⟩ := rfl
 
 /-! ## 2. `Unit.__mul__` with data, and the handlers of `_array_functions.py` -/
@@ -335,30 +244,17 @@ theorem handler_alwaysArray_good_iff (sh : Shape) :
 
 /-- every rule of the regenerated handler table is acceptable: built by shape, or an
     unconditional `unyt_array` for a function that cannot return a 0-d result -/
-def handlerRowOk (excl : List String) (row : String × List HRule) : Bool :=
+def handlerRowOk (row : String × List HRule) : Bool :=
   row.2.all fun r =>
     match r with
     | .timesUnit | .byNdim | .other => true
-    | .alwaysArray => Ref.c16NeverZeroD.contains row.1 || excl.contains row.1
+    | .alwaysArray => Ref.c16NeverZeroD.contains row.1
     | .alwaysQuantity | .unknown => false
 
-/-- the full table obligation: no exclusions -/
-def C16_handlers_full : Prop := Generated.c16HandlerRules.all (handlerRowOk []) = true
-
-/-- **handler table (P-tab), partial** — every return statement of every handler in
-    `_HANDLED_FUNCTIONS` (regenerated from the source on every run) decides the class by shape,
-    except the `out=` branches of the handlers listed in `Ref.exclC16Handlers` -/
-theorem C16_handlers_partial :
-    Generated.c16HandlerRules.all (handlerRowOk Ref.exclC16Handlers) = true := by decide +kernel
-
-/-- … and each exclusion is still needed: the excluded handlers do have an unconditional
-    `unyt_array(…)` return for a possibly 0-d result, so the full obligation fails -/
-theorem C16_handlers_counterexample :
-    ¬ C16_handlers_full ∧
-    Ref.exclC16Handlers.all (fun n =>
-      (Generated.c16HandlerRules.find? (·.1 == n)).any (fun row => row.2.contains .alwaysArray)) = true := by
-  unfold C16_handlers_full
-  exact ⟨by decide +kernel, by decide +kernel⟩
+/-- **handler table (P-tab), full** — every return statement of every handler in
+    `_HANDLED_FUNCTIONS` (regenerated from the source on every run) decides the class by shape, or
+    belongs to a function that cannot return a 0-d result; no exclusions -/
+theorem C16_handlers : Generated.c16HandlerRules.all handlerRowOk = true := by decide +kernel
 
 /-! ## 3. accessors: views and copies -/
 
@@ -380,10 +276,12 @@ section getitem
 variable {U : Type}
 
 /-- anatomy of a successful `x[ixs]`: NumPy's shape, the parent's units and name, and the class:
-    `unyt_quantity` for shape `()`, the parent's class otherwise -/
+    `unyt_quantity` for shape `()`; otherwise the parent's class, or `unyt_array` when the parent
+    is itself a quantity -/
 theorem getitem_ok (nu : U) (p : Obj U) (ixs : List Ix) (r : Obj U) (h : getitem nu p ixs = .ok r) :
     index p.shape ixs = .ok r.shape ∧ r.md = p.md ∧
-    ((r.cls = .uquantity ∧ r.shape = []) ∨ (r.cls = p.cls ∧ r.shape ≠ [])) := by
+    ((r.cls = .uquantity ∧ r.shape = []) ∨
+     (r.cls = (if p.cls.isQuantity then .uarray else p.cls) ∧ r.shape ≠ [])) := by
   unfold getitem at h
   cases hi : index p.shape ixs with
   | error e => simp [hi] at h
@@ -399,8 +297,25 @@ theorem getitem_ok (nu : U) (p : Obj U) (ixs : List Ix) (r : Obj U) (h : getitem
         cases h
         exact ⟨by rw [hs], rfl, Or.inl ⟨rfl, rfl⟩⟩
       · simp only [hs, if_false] at h
-        cases h
-        exact ⟨rfl, rfl, Or.inr ⟨rfl, hs⟩⟩
+        by_cases hq : p.cls.isQuantity = true
+        · simp only [hq, if_true] at h
+          cases h
+          exact ⟨rfl, rfl, Or.inr ⟨by simp [hq], hs⟩⟩
+        · simp only [hq, if_false] at h
+          cases h
+          refine ⟨rfl, rfl, Or.inr ⟨?_, hs⟩⟩
+          simp [hq]
+
+/-- indexing succeeds whenever NumPy's indexing does -/
+theorem getitem_total (nu : U) (p : Obj U) (ixs : List Ix) (s' : Shape)
+    (hi : index p.shape ixs = .ok s') : ∃ r, getitem nu p ixs = .ok r := by
+  unfold getitem
+  simp only [hi, npGetitem]
+  split
+  · exact ⟨_, rfl⟩
+  · split
+    · exact ⟨_, rfl⟩
+    · split <;> exact ⟨_, rfl⟩
 
 /-- **getitem_keeps_units_name** — for every parent (class, shape, metadata) and every index,
     the item carries the parent's units and name -/
@@ -409,74 +324,43 @@ theorem getitem_keeps_units_name (nu : U) (p : Obj U) (ixs : List Ix) (r : Obj U
   have := (getitem_ok nu p ixs r h).2.1
   rw [this]; exact ⟨rfl, rfl⟩
 
-/-- **wrap_class_iff_shape (`__getitem__`)** — indexing a parent whose class is not a quantity
-    class (unyt_array, user subclasses; any shape, 0-d included) with any index form yields a
-    `unyt_quantity` iff the result has shape `()` -/
-theorem getitem_array_parent_strict (nu : U) (p : Obj U) (ixs : List Ix) (r : Obj U)
-    (hp : p.cls.isQuantity = false) (h : getitem nu p ixs = .ok r) : r.res.Strict := by
+/-- **wrap_class_iff_shape (`__getitem__`)** — indexing any parent (unyt_array, unyt_quantity,
+    user subclasses; any shape, size-1 non-scalar quantities included) with any index form yields
+    a quantity class iff the result has shape `()` -/
+theorem getitem_strict (nu : U) (p : Obj U) (ixs : List Ix) (r : Obj U)
+    (h : getitem nu p ixs = .ok r) : r.res.Strict := by
   rcases (getitem_ok nu p ixs r h).2.2 with ⟨hc, hs⟩ | ⟨hc, hs⟩
   · refine ⟨fun _ => hs, fun _ => ?_⟩
     show r.cls.isQuantity = true
     rw [hc]; exact uquantity_is_quantity
   · refine ⟨fun h' => ?_, fun h' => absurd h' hs⟩
-    simp only [Obj.res, hc, hp] at h'; cases h'
+    have h'' : r.cls.isQuantity = true := h'
+    rw [hc] at h''
+    cases hq : p.cls.isQuantity with
+    | true => simp [hq, uarray_not_quantity] at h''
+    | false => simp [hq] at h''
 
-/-- the full statement for indexing: from a parent that meets the property, every item meets it -/
-def C16_getitem_full : Prop :=
-  ∀ (p : Obj Nat) (ixs : List Ix) (r : Obj Nat),
-    p.cls.isUnyt = true → p.res.Good → getitem 0 p ixs = .ok r → r.res.Good
+/-- **C16 for indexing, full strength** — every item of every parent, for every index form,
+    meets the property; in particular no index of a quantity is a multi-element quantity -/
+theorem C16_getitem (nu : U) (p : Obj U) (ixs : List Ix) (r : Obj U)
+    (h : getitem nu p ixs = .ok r) : r.res.Good :=
+  strict_good _ (getitem_strict nu p ixs r h)
 
-/-- indexing a scalar quantity (newaxis, Ellipsis, boolean scalars, `()`): at most one element,
-    so the item meets the property whatever its class -/
-theorem getitem_scalar_parent_good (nu : U) (p : Obj U) (ixs : List Ix) (r : Obj U)
-    (hs : p.shape = []) (hq : p.cls.isQuantity = true) (hv : ∀ ix ∈ ixs, ix.validScalarMask)
-    (h : getitem nu p ixs = .ok r) : r.res.Good := by
-  have ho := getitem_ok nu p ixs r h
-  have hsz : size r.shape ≤ 1 := by
-    have := ho.1; rw [hs] at this
-    exact index_scalar_parent_size ixs r.shape hv this
-  refine ⟨fun hnil => ?_, fun hgt => ?_⟩
-  · rcases ho.2.2 with ⟨hc, _⟩ | ⟨_, hne⟩
-    · show r.cls.isQuantity = true; rw [hc]; exact uquantity_is_quantity
-    · exact absurd hnil hne
-  · exact absurd hgt (by show ¬ size r.shape > 1; omega)
-
-/-- **C16 for indexing, partial** — guard: the parent is not a non-scalar quantity (its class
-    is an array class, or it is 0-d).  For every such parent, of every shape, and every index
-    form, the item meets the property -/
-theorem C16_getitem_partial (nu : U) (p : Obj U) (ixs : List Ix) (r : Obj U)
-    (hguard : p.cls.isQuantity = false ∨ p.shape = [])
-    (hv : ∀ ix ∈ ixs, ix.validScalarMask) (h : getitem nu p ixs = .ok r) : r.res.Good := by
-  cases hq : p.cls.isQuantity with
-  | false => exact strict_good _ (getitem_array_parent_strict nu p ixs r hq h)
-  | true =>
-    rcases hguard with hg | hg
-    · rw [hq] at hg; cases hg
-    · exact getitem_scalar_parent_good nu p ixs r hg hq hv h
-
-/-- the excluded region is real: the size-1 quantity `q[None]` (shape `(1,)`, which meets the
-    property) indexed with the integer array `[0, 0]` is a 2-element `unyt_quantity` -/
-theorem C16_getitem_counterexample : ¬ C16_getitem_full := by
-  intro h
-  have := h ⟨.uquantity, [1], ⟨1, some "p"⟩⟩ [.fancy [2] 0 0] ⟨.uquantity, [2], ⟨1, some "p"⟩⟩
-    (by decide) (by decide) rfl
-  revert this; decide
-
-/-- the first step of that counterexample: `q[None]` is a `unyt_quantity` of shape `(1,)` -/
-example : getitem 0 (⟨.uquantity, [], ⟨1, some "p"⟩⟩ : Obj Nat) [.newaxis] = .ok ⟨.uquantity, [1], ⟨1, some "p"⟩⟩ := rfl
-/-- non-vacuity of the partial theorem: `x[0, :, [0, 1]]` on a (2,3,4) array has shape (2,3) -/
+/-- `q[None]` is a `unyt_array` of shape `(1,)`, and its fancy index `[0, 0]` a 2-element
+    `unyt_array` -/
+example : getitem 0 (⟨.uquantity, [], ⟨1, some "p"⟩⟩ : Obj Nat) [.newaxis] = .ok ⟨.uarray, [1], ⟨1, some "p"⟩⟩ := rfl
+example : getitem 0 (⟨.uquantity, [1], ⟨1, some "p"⟩⟩ : Obj Nat) [.fancy [2] 0 0] = .ok ⟨.uarray, [2], ⟨1, some "p"⟩⟩ := rfl
+/-- `x[0, :, [0, 1]]` on a (2,3,4) array has shape (2,3) -/
 example : getitem 0 (⟨.uarray, [2, 3, 4], ⟨1, none⟩⟩ : Obj Nat) [.int 0, .slice none none 1, .fancy [2] 0 1]
     = .ok ⟨.uarray, [2, 3], ⟨1, none⟩⟩ := rfl
 example : getitem 0 (⟨.uarray, [2, 3], ⟨1, none⟩⟩ : Obj Nat) [.int 1, .int (-1)] = .ok ⟨.uquantity, [], ⟨1, none⟩⟩ := rfl
 
 /-- **iteration** — iterating a parent of shape `d :: s` yields exactly `d` items, each the
-    sub-array of shape `s` with the parent's units and name; for array-class parents each item
-    is a `unyt_quantity` iff `s = []` -/
+    sub-array of shape `s` with the parent's units and name; each item is a quantity iff `s = []` -/
 theorem iterate_items (nu : U) (p : Obj U) (d : Nat) (s : Shape) (hp : p.shape = d :: s)
     (items : List (Except SErr (Obj U))) (h : iterate nu p = .ok items) :
     items.length = d ∧
-    ∀ it ∈ items, ∃ o, it = .ok o ∧ o.shape = s ∧ o.md = p.md ∧
-      (p.cls.isQuantity = false → o.res.Strict) := by
+    ∀ it ∈ items, ∃ o, it = .ok o ∧ o.shape = s ∧ o.md = p.md ∧ o.res.Strict := by
   unfold iterate at h
   rw [hp] at h
   simp only [Except.ok.injEq] at h
@@ -489,14 +373,11 @@ theorem iterate_items (nu : U) (p : Obj U) (d : Nat) (s : Shape) (hp : p.shape =
     rw [hp]; exact index_single_int d s _ (intInRange_ofNat d i hi)
   cases hg : getitem nu p [.int (Int.ofNat i)] with
   | error e =>
-    unfold getitem at hg
-    simp only [hidx, npGetitem] at hg
-    split at hg
-    · cases hg
-    · split at hg <;> cases hg
+    obtain ⟨r, hr⟩ := getitem_total nu p _ s hidx
+    rw [hr] at hg; cases hg
   | ok o =>
     have ho := getitem_ok nu p _ o hg
-    refine ⟨o, rfl, ?_, ho.2.1, fun hq => getitem_array_parent_strict nu p _ o hq hg⟩
+    refine ⟨o, rfl, ?_, ho.2.1, getitem_strict nu p _ o hg⟩
     have := ho.1; rw [hidx] at this; cases this; rfl
 
 /-- a 0-d object is not iterable -/
@@ -545,7 +426,7 @@ theorem arrayNew_class (cls : PyCls) (inp : NewInput) (r : NewRes) (h : arrayNew
 
 /-! ## 6. reshape, squeeze, transpose and the other class-preserving methods -/
 
-/-- operations for which the class-preserving default path is harmless -/
+/-- operations for which the remaining class-preserving default path is harmless -/
 def viewGuard (cls : PyCls) (op : ViewOp) : Bool :=
   if cls.isQuantity then
     match op with
@@ -553,7 +434,6 @@ def viewGuard (cls : PyCls) (op : ViewOp) : Bool :=
     | _ => true
   else
     match op with
-    | .squeeze | .squeezeAxis _ => false
     | .reshape t => t != []
     | _ => true
 
@@ -563,12 +443,49 @@ def C16_view_full : Prop :=
   ∀ (cls : PyCls) (s : Shape) (op : ViewOp) (r : Res),
     cls.isUnyt = true → Res.Strict ⟨cls, s⟩ → viewOp cls s op = .ok r → r.Good
 
+/-- **squeeze** — for every unyt class and every shape, `x.squeeze()` / `x.squeeze(axis)` /
+    `np.squeeze(x)` of a well-formed object is a quantity iff the result is 0-d -/
+theorem squeeze_strict (cls : PyCls) (s : Shape) (op : ViewOp) (r : Res)
+    (hu : cls.isUnyt = true) (hwf : Res.Strict ⟨cls, s⟩)
+    (hop : op = .squeeze ∨ ∃ ax, op = .squeezeAxis ax) (h : viewOp cls s op = .ok r) : r.Strict := by
+  obtain ⟨s', hv, hrs, hrc⟩ := viewOp_squeezes cls s op r hop h
+  cases hq : cls.isQuantity with
+  | true =>
+    have hs : s = [] := hwf.1 hq
+    subst hs
+    have hnr : ∀ t, op ≠ .reshape t := by rcases hop with rfl | ⟨ax, rfl⟩ <;> intro t e <;> cases e
+    have hrep : ∀ n, op ≠ .repeat_ n := by rcases hop with rfl | ⟨ax, rfl⟩ <;> intro t e <;> cases e
+    have hs' : s' = [] := by
+      rcases hop with rfl | ⟨ax, rfl⟩
+      · simp [viewShape, squeeze] at hv; exact hv
+      · simp only [viewShape, squeezeAxis] at hv
+        split at hv
+        · cases hv; rfl
+        · simp [normAxis] at hv
+          split at hv <;> first | cases hv | (split at hv <;> cases hv) | skip
+          all_goals omega
+    simp only [hq, Bool.true_eq_false, and_false, if_false] at hrc
+    exact ⟨fun _ => hrs.trans hs', fun _ => by show r.cls.isQuantity = true; rw [hrc]; exact hq⟩
+  | false =>
+    simp only [hu, hq, true_and, and_true] at hrc
+    by_cases hs' : s' = []
+    · simp only [hs', if_true] at hrc
+      exact ⟨fun _ => hrs.trans hs', fun _ => by show r.cls.isQuantity = true; rw [hrc]; exact uquantity_is_quantity⟩
+    · simp only [hs', if_false] at hrc
+      refine ⟨fun h' => ?_, fun h' => absurd (hrs ▸ h') hs'⟩
+      have h'' : r.cls.isQuantity = true := h'
+      rw [hrc, hq] at h''; cases h''
+
 /-- **C16 for the view-making methods, partial** — for every unyt class, every shape and every
-    method outside the guard's excluded region (`squeeze` and `reshape(())` of arrays, `repeat` of
-    quantities), the result meets the property -/
+    method outside the guard's excluded region (`reshape(())` of arrays, `repeat` of quantities),
+    the result meets the property -/
 theorem C16_view_partial (cls : PyCls) (s : Shape) (op : ViewOp) (r : Res)
     (hu : cls.isUnyt = true) (hwf : Res.Strict ⟨cls, s⟩) (hg : viewGuard cls op = true)
     (h : viewOp cls s op = .ok r) : r.Good := by
+  by_cases hop : op = .squeeze ∨ ∃ ax, op = .squeezeAxis ax
+  · exact strict_good r (squeeze_strict cls s op r hu hwf hop h)
+  have hsq : op ≠ .squeeze := fun e => hop (Or.inl e)
+  have hsa : ∀ ax, op ≠ .squeezeAxis ax := fun ax e => hop (Or.inr ⟨ax, e⟩)
   cases hq : cls.isQuantity with
   | true =>
     have hs : s = [] := hwf.1 hq
@@ -596,7 +513,7 @@ theorem C16_view_partial (cls : PyCls) (s : Shape) (op : ViewOp) (r : Res)
         simp only [hq, if_true] at hc
         exact ⟨fun hnil => absurd hnil hne, fun _ => by rw [hc]; exact uarray_not_quantity⟩
       have hne : ∀ k, op ≠ .expandDims k := fun k e => hex ⟨k, e⟩
-      rw [viewOp_nonreshape cls [] op hnr hne] at h
+      rw [viewOp_nonreshape cls [] op hnr hne hsq hsa] at h
       cases hv : viewShape [] op with
       | error e => simp [hv] at h
       | ok s' =>
@@ -624,7 +541,7 @@ theorem C16_view_partial (cls : PyCls) (s : Shape) (op : ViewOp) (r : Res)
           | error e => simp [hv] at h
           | ok s' => simp [hv] at h; subst h; exact ⟨rfl, s', by simp [viewShape, hv], rfl⟩
         · have hne : ∀ k, op ≠ .expandDims k := fun k e => hex ⟨k, e⟩
-          rw [viewOp_nonreshape cls s op hnr hne] at h
+          rw [viewOp_nonreshape cls s op hnr hne hsq hsa] at h
           cases hv : viewShape s op with
           | error e => simp [hv] at h
           | ok s' => simp [hv] at h; subst h; exact ⟨rfl, s', rfl, rfl⟩
@@ -634,15 +551,14 @@ theorem C16_view_partial (cls : PyCls) (s : Shape) (op : ViewOp) (r : Res)
       cases op <;> simp_all
     refine ⟨fun hnil => absurd (hrs ▸ hnil) hne, fun _ => by rw [hc]; exact hq⟩
 
-/-- the excluded region is real: `x[:1].squeeze()` and `x[:1].reshape(())` are 0-d
-    `unyt_array`s, `q.repeat(2)` is a 2-element `unyt_quantity` -/
+/-- the excluded region is real: `x[:1].reshape(())` is a 0-d `unyt_array`, `q.repeat(2)` a
+    2-element `unyt_quantity` -/
 theorem C16_view_counterexample :
     ¬ C16_view_full ∧
-    viewOp .uarray [1] .squeeze = .ok ⟨.uarray, []⟩ ∧
     viewOp .uarray [1] (.reshape []) = .ok ⟨.uarray, []⟩ ∧
     viewOp .uquantity [] (.repeat_ 2) = .ok ⟨.uquantity, [2]⟩ := by
-  refine ⟨fun h => ?_, rfl, rfl, rfl⟩
-  have := h .uarray [1] .squeeze ⟨.uarray, []⟩ (by decide) (by decide) rfl
+  refine ⟨fun h => ?_, rfl, rfl⟩
+  have := h .uarray [1] (.reshape []) ⟨.uarray, []⟩ (by decide) (by decide) rfl
   revert this; decide
 
 /-- `unyt_quantity.reshape` to any non-empty target shape is a `unyt_array` (the override of
@@ -662,6 +578,8 @@ theorem quantityReshape_class (cls : PyCls) (s : Shape) (t : List Int) (r : Res)
 
 example : viewOp .uquantity [] (.reshape [1, 1]) = .ok ⟨.uarray, [1, 1]⟩ := rfl
 example : viewOp .uarray [2, 3] .transpose = .ok ⟨.uarray, [3, 2]⟩ := rfl
+example : viewOp .uarray [1, 1] .squeeze = .ok ⟨.uquantity, []⟩ := rfl
+example : viewOp .uarray [1, 3] .squeeze = .ok ⟨.uarray, [3]⟩ := rfl
 
 /-! ## 7. lists of quantities in mixed units (`_coerce_iterable_units`) -/
 
@@ -805,11 +723,8 @@ theorem getitem_ints_class {U : Type} (nu : U) (p : Obj U) (is : List Int)
   have hidx := (index_ints_scalar_iff is p.shape h)
   cases hg : getitem nu p (is.map Ix.int) with
   | error e =>
-    unfold getitem at hg
-    simp only [hidx.1, npGetitem] at hg
-    split at hg
-    · cases hg
-    · split at hg <;> cases hg
+    obtain ⟨r, hr⟩ := getitem_total nu p _ _ hidx.1
+    rw [hr] at hg; cases hg
   | ok r =>
     have ho := getitem_ok nu p _ r hg
     have hsh : r.shape = p.shape.drop is.length := by
@@ -817,13 +732,14 @@ theorem getitem_ints_class {U : Type} (nu : U) (p : Obj U) (is : List Int)
     refine ⟨r, rfl, hsh, ho.2.1, ?_, ?_⟩
     · rcases ho.2.2 with ⟨hc, hs⟩ | ⟨hc, hs⟩
       · exact ⟨fun _ => hidx.2.1 (hsh ▸ hs), fun _ => hc⟩
-      · constructor
+      · simp only [hp, Bool.false_eq_true, if_false] at hc
+        constructor
         · intro hq; rw [hc] at hq; rw [hq] at hp; simp [uquantity_is_quantity] at hp
         · intro hl; exact absurd (hsh ▸ hidx.2.2 hl) hs
     · intro hl
       rcases ho.2.2 with ⟨hc, hs⟩ | ⟨hc, hs⟩
       · have := hidx.2.1 (hsh ▸ hs); omega
-      · exact hc
+      · simpa [hp] using hc
 
 example : index [2, 3, 4] [.int 1, .int (-1), .int 0] = .ok [] := rfl
 example : index [2, 3, 4] [.ellipsis, .int 0] = .ok [2, 3] := rfl
